@@ -22,14 +22,17 @@ VK_thorough == VK_quick \cup {StrKey(<<9>>), StrKey(<<8, 5, 2, 6>>), IntKey(10),
 VS_quick == {StrKey(<<7>>), IntKey(0), StrKey(<<7, 2, 8>>)}
 VS_thorough == VS_quick \cup {StrKey(<<3>>), IntKey(1)}
 
-KeyU == StrKeysUpTo(Alphabet, KeyLen) \cup IntKeysOf(IntVals)
-PathU == UNION {[1..d -> KeyU] : d \in 0..PathDepth}
-AU == UNION {[1..d -> AKeys] : d \in 0..ADepth}
+\* The universes take a dummy argument so that TLC does not evaluate them eagerly in runs that do not
+\* need them (zero-arity constant definitions are all evaluated at start-up).
+KeyU(u) == StrKeysUpTo(Alphabet, KeyLen) \cup IntKeysOf(IntVals)
+StrU(u) == SeqsUpTo(Alphabet, MaxStr)
+PathU(u) == UNION {[1..d -> KeyU(u)] : d \in 0..PathDepth}
+AU(u) == UNION {[1..d -> AKeys] : d \in 0..ADepth}
 V0 == {Leaf(0), Leaf(1)}
-V1 == V0 \cup Level(VKeys, 2, V0)
-V1s == V0 \cup Level(VSmallKeys, 1, V0)
-V2 == V1 \cup Level(VKeys, 1, V1) \cup Level(VSmallKeys, 2, V1s)
-V3 == V2 \cup Level(VSmallKeys, 1, V2)
-ValU == IF VDeep THEN V3 ELSE V2
+V1(u) == V0 \cup Level(VKeys, 2, V0)
+V1s(u) == V0 \cup Level(VSmallKeys, 1, V0)
+V2(u) == LET v1 == V1(u) IN v1 \cup Level(VKeys, 1, v1) \cup Level(VSmallKeys, 2, V1s(u))
+V3(u) == LET v2 == V2(u) IN v2 \cup Level(VSmallKeys, 1, v2)
+ValU(u) == IF VDeep THEN V3(u) ELSE V2(u)
 
 =============================================================================
